@@ -111,6 +111,8 @@ def r2_case_analysis(P, rep, ctx):
     g = ctx.cfg(fi)
     pv, cv = fi.params[1], fi.params[2]
     fx = F(ctx, fi)
+    _rn = [v for _, v in fx.returns() if v is not None and isinstance(v, ast.Name)]
+    RV = _rn[0].id if _rn else "ret"
     for pk in KINDS:
         for ck in KINDS:
             kinds = {pv: pk, cv: ck}
@@ -136,15 +138,15 @@ def r2_case_analysis(P, rep, ctx):
                     for t in st.targets:
                         tt = norm(t)
                         for b in ("added", "removed", "modified"):
-                            if tt.startswith(f"ret.{b}["):
+                            if tt.startswith(f"{RV}.{b}["):
                                 stores.setdefault(b, set()).add(norm(st.value))
             cell = f"(prev={pk}, curr={ck})"
             loc = fi.loc()
             reaches_exit = g.exit in live
             rep.check(reaches_exit, "C18.R2", fi.qual, f"cell {cell} reaches a return", loc, construct=f"cell {cell} returns", message=f"compare has no return for {cell}")
             if pk != "dict" and ck != "dict":
-                ok = rets == ["None", "ret"] and not stores
-                rep.check(ok, "C18.R2", fi.qual, f"cell {cell}: leaf comparison, no children", loc, construct=f"cell {cell}: returns {rets}, stores {sorted(stores)}", message=f"compare for {cell}: returns {rets}, fills {sorted(stores)} (expected: None iff equal else the node, no children)")
+                ok = rets == ["None", RV] and not stores
+                rep.check(ok, "C18.R2", fi.qual, f"cell {cell}: leaf comparison, no children", loc, construct=f"cell {cell} effects", message=f"compare for {cell}: returns {rets}, fills {sorted(stores)} (expected: None iff equal else the node, no children)")
                 eqt = [t for t in g.nodes if t.idx in live and t.kind == "test" and norm(t.exprs[0]) in (f"{pv} == {cv}", f"{cv} == {pv}")]
                 okeq = bool(eqt) and all(all(norm(g.nodes[b].stmt.value) == "None" for b, l in g.succ[t.idx] if l == "T" and isinstance(g.nodes[b].stmt, ast.Return)) for t in eqt)
                 eq_edges = [(t.idx, "T") for t in eqt]
@@ -152,14 +154,14 @@ def r2_case_analysis(P, rep, ctx):
                 okeq = okeq and all(fx.hit_before(n, edges=eq_edges) for n in none_rets)
                 rep.check(okeq, "C18.R2", fi.qual, f"cell {cell}: 'no difference' iff prev == curr", loc, construct=f"cell {cell} equality", message=f"compare for {cell} does not return None exactly when prev == curr")
             elif pk != "dict" and ck == "dict":
-                ok = set(stores) == {"added"} and rets == ["ret"]
-                rep.check(ok, "C18.R2", fi.qual, f"cell {cell}: everything inside is added", loc, construct=f"cell {cell}: returns {rets}, stores {sorted(stores)}", message=f"compare for {cell}: returns {rets}, fills {sorted(stores)} (expected: only `added`, returns the node)")
+                ok = set(stores) == {"added"} and rets == [RV]
+                rep.check(ok, "C18.R2", fi.qual, f"cell {cell}: everything inside is added", loc, construct=f"cell {cell} effects", message=f"compare for {cell}: returns {rets}, fills {sorted(stores)} (expected: only `added`, returns the node)")
             elif pk == "dict" and ck != "dict":
-                ok = set(stores) == {"removed"} and rets == ["ret"]
-                rep.check(ok, "C18.R2", fi.qual, f"cell {cell}: everything inside is removed", loc, construct=f"cell {cell}: returns {rets}, stores {sorted(stores)}", message=f"compare for {cell}: returns {rets}, fills {sorted(stores)} (expected: only `removed`, returns the node)")
+                ok = set(stores) == {"removed"} and rets == [RV]
+                rep.check(ok, "C18.R2", fi.qual, f"cell {cell}: everything inside is removed", loc, construct=f"cell {cell} effects", message=f"compare for {cell}: returns {rets}, fills {sorted(stores)} (expected: only `removed`, returns the node)")
             else:
-                ok = set(stores) == {"added", "removed", "modified"} and rets == ["None", "ret"]
-                rep.check(ok, "C18.R2", fi.qual, f"cell {cell}: three-way split of the keys", loc, construct=f"cell {cell}: returns {rets}, stores {sorted(stores)}", message=f"compare for {cell}: returns {rets}, fills {sorted(stores)}")
+                ok = set(stores) == {"added", "removed", "modified"} and rets == ["None", RV]
+                rep.check(ok, "C18.R2", fi.qual, f"cell {cell}: three-way split of the keys", loc, construct=f"cell {cell} effects", message=f"compare for {cell}: returns {rets}, fills {sorted(stores)}")
     # roles of the recursive calls, per loop
     import re as _re
 
@@ -277,8 +279,22 @@ def r3_status(P, rep, ctx):
         xv = norm(ge.generators[0].target)
         m = MM.match(f"{xv}.path == __q", ge.generators[0].ifs[0]) or MM.match(f"__q == {xv}.path", ge.generators[0].ifs[0])
         ok = m is not None and norm(ge.elt) == xv
-        t = norm(gtfi.node)
-        shortest_first = ("prefixes.pop()" in t and f"[{pp}] + list({pp}.parents)" in t) or bool(_re_search(r"reversed\(", t) and (f"[{pp}, *{pp}.parents][:-1]" in t or f"list({pp}.parents)" in t))
+        lists = {}
+        for nm_, ds_ in local_defs(gtfi).items():
+            for k_, v_ in ds_:
+                if v_ is None:
+                    continue
+                tv = norm(v_)
+                base = tv[:-5] if tv.endswith("[:-1]") else tv
+                if base in (f"[{pp}] + list({pp}.parents)", f"[{pp}, *{pp}.parents]", f"[{pp}, *list({pp}.parents)]"):
+                    lists[nm_] = tv.endswith("[:-1]")
+        shortest_first = False
+        for nm_, dropped in lists.items():
+            pops = [c_ for c_ in local_calls(gtfi.node) if MM.match(f"{nm_}.pop()", c_) is not None]
+            loops_w = [n_ for n_ in gt.g.nodes if n_.kind == "loop" and norm(n_.stmt.test) == nm_]
+            rev = [n_ for n_ in gt.g.nodes if n_.kind == "for" and norm(n_.stmt.iter) in (f"reversed({nm_})", f"{nm_}[::-1]", f"reversed({nm_}[:-1])")]
+            if (loops_w and len(pops) >= (1 if dropped else 2)) or (rev and (dropped or any("[:-1]" in norm(n_.stmt.iter) for n_ in rev) or pops)):
+                shortest_first = True
         ok = ok and shortest_first
     empty = gt.tests("self._diff_root is None")
     miss = gt.tests("__n is None")
